@@ -26,6 +26,98 @@ func c04(r *core.Report) {
 	c04EveryItem(r)
 	c04ValueOptions(r)
 	c04ExternalValue(r)
+	c04Anchors(r)
+}
+
+// c04Anchors: two checks whose mechanism is part of what they check.
+func c04Anchors(r *core.Report) {
+	p := r.Prog
+	info := p.Pkg("openapi3").TypesInfo
+	r.RunRule("C04.anchors", "two rules are enforced against everything, not against a neighbour or a count: (paths) Paths.Validate detects conflicting templates with a map from the normalised template to the path that claimed it, probed and stored for every path (comparing each template with the previous one of a sorted list misses conflicts that a third path sorts between); (server) Server.Validate looks every declared variable up in the URL by its own name (a count of placeholders against the number of declared variables is satisfied by a variable used twice and another never used)", 2, func() {
+		pd := p.DeclOf("openapi3", "Paths.Validate")
+		probed, stored := false, false
+		ast.Inspect(pd.Body, func(nd ast.Node) bool {
+			switch x := nd.(type) {
+			case *ast.AssignStmt:
+				// v, ok := m[k]  /  m[k] = v   on a local map[string]string
+				for _, e := range append(append([]ast.Expr{}, x.Lhs...), x.Rhs...) {
+					ix, ok := ast.Unparen(e).(*ast.IndexExpr)
+					if !ok {
+						continue
+					}
+					mt, ok := info.TypeOf(ix.X).Underlying().(*types.Map)
+					if !ok {
+						continue
+					}
+					if b, isB := mt.Key().Underlying().(*types.Basic); !isB || b.Kind() != types.String {
+						continue
+					}
+					if b, isB := mt.Elem().Underlying().(*types.Basic); !isB || b.Kind() != types.String {
+						continue
+					}
+					for _, l := range x.Lhs {
+						if l == e {
+							stored = true
+						}
+					}
+					for _, rr := range x.Rhs {
+						if rr == e {
+							probed = true
+						}
+					}
+				}
+			}
+			return true
+		})
+		r.Check(probed && stored, "anchors:Paths.Validate/templates", p.Pos(pd.Pos()), "a map of normalised templates is probed and stored", "Paths.Validate no longer keeps a map from normalised template to path: conflicting templates (`/shops/{a}/items` and `/shops/{c}/items`) are only found when nothing sorts between them")
+		sd := p.DeclOf("openapi3", "Server.Validate")
+		byName := false
+		ast.Inspect(sd.Body, func(nd ast.Node) bool {
+			rs, ok := nd.(*ast.RangeStmt)
+			if !ok {
+				return true
+			}
+			// the loop variable (a variable name) is used in a strings.Contains on the URL that leads to an error return
+			var loopVars []types.Object
+			for _, e := range []ast.Expr{rs.Key, rs.Value} {
+				if id, ok := e.(*ast.Ident); ok && id.Name != "_" {
+					loopVars = append(loopVars, info.ObjectOf(id))
+				}
+			}
+			ast.Inspect(rs.Body, func(m ast.Node) bool {
+				ifs, ok := m.(*ast.IfStmt)
+				if !ok || !core.Terminates(info, ifs.Body.List) {
+					return true
+				}
+				usesVar, usesURL, contains := false, false, false
+				ast.Inspect(ifs.Cond, func(k ast.Node) bool {
+					switch y := k.(type) {
+					case *ast.Ident:
+						for _, o := range loopVars {
+							if info.ObjectOf(y) == o {
+								usesVar = true
+							}
+						}
+					case *ast.SelectorExpr:
+						if y.Sel.Name == "URL" {
+							usesURL = true
+						}
+					case *ast.CallExpr:
+						if f := core.CalleeOf(info, y); f != nil && f.Pkg() != nil && f.Pkg().Path() == "strings" && (f.Name() == "Contains" || f.Name() == "Index") {
+							contains = true
+						}
+					}
+					return true
+				})
+				if usesVar && usesURL && contains {
+					byName = true
+				}
+				return true
+			})
+			return true
+		})
+		r.Check(byName, "anchors:Server.Validate/variables", p.Pos(sd.Pos()), "each declared variable is searched in the URL by name", "Server.Validate no longer looks each declared variable up in the URL: a server that declares a variable its URL never uses is accepted when the counts happen to agree (`https://{region}.example.com/{region}/api` with `region` and `version` declared)")
+	})
 }
 
 // c04ExternalValue: an example whose value lives elsewhere has no value here.
